@@ -130,6 +130,10 @@ func runTreeProp(c *Ctx, which string) {
 				corr.Add("acc\t"+hx(r.Source)+"\t"+wireRoot(r), strings.Join(parts, " "))
 			}
 		}
+		if !stream && len(doc) <= 4000 && (fam != "exhaustive" && idx%3 == 0 || fam == "exhaustive" && (!c.quick() || (idx/4)%4 == 0)) {
+			// the tree the oracle examines is the tree the Lean model of Parse computes (block phase, Extract, Rewrite)
+			parseCorr(c, corr, doc)
+		}
 		if which == "spans" && len(doc) <= 1500 && idx%2 == 0 {
 			// the hypothesis of the block-half theorem drain_spans (C02): the RefDefSpansOK check never fails along the run
 			orc.Add("spanshyp\t"+hx(doc)+"\t"+blocksExt(doc)+"\t"+blocksFold(doc), "ok", func(got string) {
